@@ -292,7 +292,9 @@ def playback(engine, tag, tier, h, replay_dir):
     cmd = ["cargo", "kani", "-p", PACKAGE[engine], "-Z", "stubbing", "-Z", "unstable-options", "-Z", "concrete-playback",
            "--concrete-playback=print", "--harness", f"verif_{h.module}::{h.name}",
            "--harness-timeout", f"{max(h.timeout, 1800)}s", "--target-dir", target]
-    shell = f"ulimit -v {mem_for(engine)}; exec " + " ".join(_q(c) for c in cmd)
+    # the trace-producing re-run needs more memory than the query (measured: a 10-GB receive-side query passed 19 GB in
+    # its replay run); replays run alone, so give them most of the machine
+    shell = f"ulimit -v {max(mem_for(engine), 44 * 1024 * 1024)}; exec " + " ".join(_q(c) for c in cmd)
     with open(log, "w") as lf:
         subprocess.run(["bash", "-c", shell], cwd=src, env=_env(engine), stdout=lf, stderr=subprocess.STDOUT)
     with open(log) as lf:
